@@ -49,7 +49,7 @@ Sorted(s) == IF WeakNoSort THEN s ELSE SortSeq0(s)
 (* histogram.go:192-243.  Pairs are records [lo, hi] of bound tokens. *)
 Pairs(spec) ==
   IF Len(spec) = 0 THEN << [lo |-> MIN, hi |-> MAX] >>
-  ELSE LET s == Sorted(spec)
+  ELSE LET s == TLCEval(Sorted(spec))   \* TLCEval: evaluate once (TLC's function values are lazy: every s[i] would sort again)
            n == Len(s)
            body == [i \in 1..n |-> [lo |-> IF WeakLowerFromSelf /\ i > 1 THEN s[i]
                                            ELSE IF i = 1 THEN MIN ELSE s[i - 1],
@@ -68,11 +68,11 @@ SearchLoop(i, j, ups, v) ==
   ELSE LET h == (i + j) \div 2
        IN IF ~GE(ups[h + 1], v) THEN SearchLoop(h + 1, j, ups, v) ELSE SearchLoop(i, h, ups, v)
 
-Uppers(spec) == [i \in 1..Len(Pairs(spec)) |-> Pairs(spec)[i].hi]
+Uppers(spec) == LET P == TLCEval(Pairs(spec)) IN [i \in 1..Len(P) |-> P[i].hi]
 
 (* 0-based bucket index, or -1 for "the implementation panics" *)
 BucketIndex(spec, v) ==
-  LET ups == Uppers(spec)
+  LET ups == TLCEval(Uppers(spec))
       n == Len(ups)
       idx == SearchLoop(0, n, ups, v)
   IN IF idx < n THEN idx
